@@ -58,6 +58,32 @@ def gen_big(rng):
             return inst
 
 
+def gen_deep(rng):
+    """High-coverage instances (17-19 reads active in a column, the region above 2^16 table entries): single individual
+    or two unrelated ones, 3-7 columns, reads copied from two hidden haplotypes with a few errors."""
+    n = rng.randint(3, 7)
+    positions = [10 * (i + 1) for i in range(n)]
+    R = rng.randint(17, 19)
+    n_ind = rng.choice([1, 1, 2])
+    truth = [[[rng.randint(0, 1) for _ in range(n)] for _ in range(2)] for _ in range(n_ind)]
+    reads = []
+    for r in range(R):
+        a = 0 if rng.random() < 0.8 else rng.randint(0, n - 2)
+        b = n - 1 if rng.random() < 0.8 else rng.randint(a + 1, n - 1)
+        ind, h = rng.randrange(n_ind), rng.randint(0, 1)
+        vs = []
+        for c in range(a, b + 1):
+            if a < c < b and rng.random() < 0.1:
+                continue
+            al = truth[ind][h][c]
+            if rng.random() < 0.15:
+                al = 1 - al
+            vs.append([positions[c], al, rng.randint(1, 9)])
+        reads.append({"ind": ind, "vars": vs})
+    return {"kind": "deep", "n_ind": n_ind, "triples": [], "positions": positions, "reads": reads,
+            "genotypes": [[[0, 1]] * n for _ in range(n_ind)], "gls": None, "recomb": [0] * n, "distrust": False, "explicit_positions": True}
+
+
 def check_big(inst, counters):
     """Necessary conditions for optimality on instances that cannot be brute-forced: witness re-costs to the reported
     cost; no single-read flip and no single-column transmission change of the witness is cheaper; the generator's hidden
@@ -373,8 +399,10 @@ def run_case(idx, rng, tier, lane):
     case = None
     try:
         if lane in ("big", "bigsan"):
-            for _ in range(6 if lane == "big" else 3):
-                inst = gen_big(rng)
+            for j in range(6 if lane == "big" else 3):
+                inst = gen_deep(rng) if (j == 0 and idx % 2 == 0) else gen_big(rng)
+                if inst["kind"] == "deep":
+                    counters["deep_coverage_instances"] = counters.get("deep_coverage_instances", 0) + 1
                 try:
                     ok = check_big(inst, counters)
                 except Viol as e:
